@@ -14,7 +14,7 @@ from reactivex import operators as ops
 from reactivex.scheduler import CurrentThreadScheduler, ImmediateScheduler
 from reactivex.subject import Subject
 
-from vlib.core import FAIL, OK, Check, HarnessError
+from vlib.core import FAIL, OK, Check, HarnessError, case_hash
 from vlib.lab import BudgetExceeded
 
 PROPERTY_ID = "C14"
@@ -39,12 +39,37 @@ RULE = (
 )
 ASSUMPTIONS = [
     "single thread, real CurrentThread/Immediate schedulers (no virtual time); partner sources (of, never) are finite or silent",
+    "scheduler configurations listed as open findings in known_findings.json are excluded by construction except for a thin sample (simple shapes + 1/16) and counted",
     "a 60 s per-case process watchdog (os._exit) exists only as a backstop; its trip is a harness error, never a verdict",
     "'at source' configurations only exist for factories that accept a scheduler (from_iterable, range, the of(1) inside repeat)",
     "RecursionError (escaping or delivered as on_error) counts as unbounded work just like BudgetExceeded",
 ]
 
 SLACK = 2  # pulls tolerated after the subscriber's terminal notification
+
+# Scheduler configurations whose failure is one root cause each ("the subscription disposable is not assigned before
+# emission").  When the maintainer lists such a signature as an *open* finding in known_findings.json the region is
+# excluded by construction: only a thin deterministic sample of it (simple shapes + 1/16 of the rest) is still executed,
+# the rest is counted under the class "excluded-known-config:<kind>".
+CFG_SIG = {
+    "immediate": "no-return|immediate-scheduler",
+    "ct_fresh": "no-return|fresh-current-thread-scheduler",
+}
+
+
+def _open_known_sigs():
+    import json
+
+    p = os.path.join(os.path.dirname(os.path.dirname(os.path.abspath(__file__))), "known_findings.json")
+    try:
+        with open(p) as fh:
+            fs = json.load(fh).get("findings", [])
+    except OSError:
+        return set()
+    return {f.get("sig") for f in fs if f.get("property") == PROPERTY_ID and f.get("status") == "open" and f.get("sig")}
+
+
+_OPEN = _open_known_sigs()
 
 SOURCES = ["from_iterable", "range", "repeat_value", "generate", "of_repeat"]
 SRC_TAKES_SCHED = {"from_iterable", "range", "of_repeat"}
@@ -471,6 +496,10 @@ def _run_inner(case):
     if cfg.endswith("@source") and src not in SRC_TAKES_SCHED:
         raise HarnessError(f"configuration {cfg} does not exist for source {src}")
     n = _term_need(term)
+    kind = cfg.split("@")[0]
+    if CFG_SIG.get(kind) in _OPEN and n >= 1 and (case["ew"] or case["wrap"] is not None):
+        if int(case_hash("c14", case), 16) % 16 != 0:
+            return OK(False, [f"excluded-known-config:{kind}"])
     if case["wrap"] == "concat_prefix":
         n_src = max(0, n - 1)
     else:
@@ -581,15 +610,33 @@ _ew_op = st.one_of(
     st.integers(0, 4).map(lambda k: ["skip", k]),
     st.sampled_from([["take", 1000000], ["take", 10**9]]),
 )
-_term_s = st.one_of(
-    st.integers(0, 12).map(lambda k: ["take", k]),
-    st.sampled_from([["first"], ["is_empty"], ["some_any"], ["take_until_now"], ["first_or_default_any"]]),
-    st.tuples(
-        st.sampled_from(["first_pred", "take_while", "take_while_incl", "take_until_at", "find", "some", "contains", "first_or_default", "all"]),
-        st.integers(1, 9),
-    ).map(list),
-    st.integers(0, 9).map(lambda k: ["element_at", k]),
-)
+_TERM_PARAM = {
+    "take": (0, 12),
+    "element_at": (0, 9),
+    "first": None,
+    "is_empty": None,
+    "some_any": None,
+    "take_until_now": None,
+    "first_or_default_any": None,
+    "first_pred": (1, 9),
+    "take_while": (1, 9),
+    "take_while_incl": (1, 9),
+    "take_until_at": (1, 9),
+    "find": (1, 9),
+    "some": (1, 9),
+    "contains": (1, 9),
+    "first_or_default": (1, 9),
+    "all": (1, 9),
+}
+
+
+@st.composite
+def _term_s(draw):
+    name = draw(st.sampled_from(sorted(_TERM_PARAM)))
+    rng = _TERM_PARAM[name]
+    if rng is None:
+        return [name]
+    return [name, draw(st.integers(*rng))]
 
 
 @st.composite
@@ -601,13 +648,13 @@ def _deep(draw):
         "src": src,
         "ew": draw(st.lists(_ew_op, min_size=0, max_size=3)),
         "wrap": draw(st.sampled_from(WRAPS)),
-        "term": draw(_term_s),
+        "term": draw(_term_s()),
         "cfg": draw(st.sampled_from(weighted)),
     }
 
 
 def checks(tier):
     return [
-        Check("product", _run, cases=_product, shards={"quick": 8, "thorough": 16}, exhaustive=True),
-        Check("deep", _run, strategy=_deep(), examples={"quick": 800, "thorough": 16 * 6000}, shards={"quick": 8, "thorough": 16}),
+        Check("product", _run, cases=_product, shards={"quick": 4, "thorough": 16}, exhaustive=True),
+        Check("deep", _run, strategy=_deep(), examples={"quick": 800, "thorough": 16 * 20000}, shards={"quick": 4, "thorough": 16}),
     ]
